@@ -79,6 +79,7 @@ class C12(ParserSessionProp):
         if not parsed:
             return result
         lang = world.g['lang']
+        parsed = parsed + self.twin_trees(parsed, lang)
         plan = spec.get('reader_plan') or []
         vs, log = self.reader_stage(parsed, lang, plan, result['stats'])
         if not vs and (spec.get('reader_interleave') or {}).get('readers'):
@@ -117,6 +118,41 @@ class C12(ParserSessionProp):
                 inter.append({'format': rng.choice(READABLE.get(lang, ['auto'])), 'lang': rng.choice(['en', 'ja'])})
         spec['reader_interleave'] = {'readers': inter, 'seed': rng.getrandbits(30)}
         return spec
+
+    def twin_trees(self, parsed, lang):
+        """grammar-licensed two-leaf derivations that differ from nodes of the parsed trees only in variable / nb
+        features of one child (e.g. the CCGbank-style S/(S\\NP) next to the parser's S[X]/(S[X]\\NP)): files that mix
+        gold and parser output contain both, and anything keyed by a feature-blind view of the children confuses them"""
+        from depccg.tree import Tree, ScoredTree
+        from depccg.types import Token
+        from depccg.grammar import en, ja
+        binary = {'en': en.apply_binary_rules, 'ja': ja.apply_binary_rules}[lang]
+        out, seen = [], set()
+
+        def rec(node):
+            if node.is_leaf or len(out) >= 8:
+                return
+            if len(node.children) == 2:
+                l, r = node.children
+                for a, b in ((l.cat.clear_features('X'), r.cat), (l.cat, r.cat.clear_features('X')),
+                             (l.cat.clear_features('X', 'nb'), r.cat.clear_features('X', 'nb'))):
+                    if (a, b) != (l.cat, r.cat) and (a, b) not in seen:
+                        seen.add((a, b))
+                        try:
+                            res = binary(a, b)
+                        except Exception:
+                            res = []
+                        for rr in res[:1]:
+                            t = Tree.make_binary(rr.cat, Tree.make_terminal(Token.of_word('tl'), a),
+                                                 Tree.make_terminal(Token.of_word('tr'), b), rr.op_string, rr.op_symbol,
+                                                 rr.head_is_left)
+                            out.append([ScoredTree(t, -1.0)])
+            for c in node.children:
+                rec(c)
+        for resp in parsed:
+            for st in resp:
+                rec(st.tree)
+        return out
 
     def reader_stage(self, parsed, lang, plan, stats):
         from depccg.printer import to_string
